@@ -220,6 +220,37 @@ def r07h(rep, prog, only_files=None):
     return n
 
 
+def r07i(rep, prog):
+    """find_min() / top() of a search frontier is evaluated only on paths on which that frontier was tested non-empty (short-circuit evaluation
+    counts): d_ary_heap::top() on an empty heap reads a stale element (undefined behaviour, silent with NDEBUG)"""
+    n = 0
+    from .c10 import guards_formula, implies
+    for fn in prog.fns('parmcb::bidirectional_signed_dijkstra'):
+        cfg = fn.cfg
+        for d in fn.walk():
+            if not (d.k == 'CXXMemberCallExpr' and d.callee and d.callee['name'] in ('find_min', 'top') and d.object_arg() is not None):
+                continue
+            okey = ex.key(d.object_arg())
+            n += 1
+            what = '`%s` is evaluated only when that frontier is not empty' % d.text(40)
+
+            def atomize(leaf):
+                s_ = leaf.strip_all()
+                if s_.k == 'CXXMemberCallExpr' and s_.callee and s_.callee['name'] == 'empty' and s_.object_arg() is not None:
+                    k_ = ex.key(s_.object_arg())
+                    # the frontier itself, or its queue member
+                    if k_ == okey or (isinstance(k_, tuple) and len(k_) == 3 and k_[0] == 'm' and k_[2] == okey):
+                        return ex.f_atom('empty')
+                return None
+            g = guards_formula(cfg, d, atomize)
+            if 'empty' in ex.f_atoms(g) and implies(g, ex.f_not(ex.f_atom('empty'))):
+                rep.ok('R07i', d, fn, what, 'reached only after `!empty()` of the same frontier')
+            else:
+                rep.violation('R07i', d, fn, what, 'the minimum is read on a path on which the frontier may be empty (the emptiness test does not come first): '
+                              'd_ary_heap::top() then returns an already popped element', key='R07i|%s|%s' % (fn.g, d.text(30)))
+    return n
+
+
 def is_temporary(arg):
     """the argument expression materialises a temporary that is bound to the reference parameter"""
     n = arg
@@ -473,6 +504,8 @@ def run(rep, tier):
     rep.rule('R10s', 'R07c: %s conversions cannot overflow', floor=1)
     rep.rule('R10b', 'R07c: the optional trailing weight is initialised before sscanf (no read of an indeterminate double on unweighted lines)', floor=1)
     rep.rule('R07d', 'no dereference of end()', floor=0)
+    rep.rule('R06d', 'the scratch maps of the closing-path search are private to each search (no stale labels, no sharing between TBB tasks)', floor=2)
+    rep.rule('R07i', 'the minimum of a frontier / heap is only read when it is non-empty', floor=1)
     rep.rule('R07h', 'sizes computed with unsigned subtraction do not wrap for the empty graph', floor=0)
     rep.rule('R07g', 'no mutable function-local static state in library functions', floor=1)
     rep.rule('R07f', 'no plain + on a distance that may be the infinity marker (signed overflow for integral weights)', floor=0)
@@ -486,12 +519,13 @@ def run(rep, tier):
     nclasses = nsites = nderef = 0
     for tu, prog in progs.items():
         F, W = approx.analyse(prog)
-        approx.report(rep, F, ['R05a'])
+        approx.report(rep, F, ['R05a', 'R06d'])
         c, s = r07b(rep, prog)
         r07b_params(rep, prog)
         r07f(rep, prog)
         r07g(rep, prog)
         r07h(rep, prog)
+        r07i(rep, prog)
         # "releases what it allocated": the control object allocated by the concurrency knob (shared with C20)
         from . import c20
         sub20 = type(rep)(rep.prop, rep.tier)
